@@ -45,7 +45,7 @@ def norm_rfc(t):
 
 
 def representable(table, dlm, policy):
-    if any(f is None for r in table for f in r):
+    if any(f is None or isinstance(f, list) for r in table for f in r):
         return False
     if policy == 'monocolumn' and any(len(r) != 1 for r in table):
         return False
@@ -110,10 +110,10 @@ def judge(res, rc, eng, table, dlm, policy, encoding=None, line_sep='\n'):
         res.feat('unrepresentable')
     # lossy output is never silent
     if err is None or not (err or '').startswith('write'):
-        has_none = any(f is None for r in table for f in r)
+        has_none = any(f is None or (isinstance(f, list) and any(x is None for x in f)) for r in table for f in r)
         if has_none and not any('None' in w for w in ww):
             res.violation('silent-none', case, 'warning about None', ww)
-        if policy in ('simple', 'whitespace') and dlm and any(f is not None and dlm in f for r in table for f in r):
+        if policy in ('simple', 'whitespace') and dlm and any(isinstance(f, str) and dlm in f for r in table for f in r):
             res.feat('delimiter_in_simple_field')
             if not any('separator' in w for w in ww):
                 res.violation('silent-delimiter-in-field', case, 'warning about separator in fields', ww)
@@ -158,10 +158,14 @@ def run_shard(sh):
                 judge(res, rc, eng, [r1, r2], dlm, pol)
                 res.states += 1
         res.transitions += res.states
-        # None cells
+        # None cells, also inside list-valued cells (ARRAY_AGG / [a1, a2] results)
         for f in F:
             judge(res, rc, eng, [[None, f]], dlm, pol)
             judge(res, rc, eng, [[f], [None]], dlm, pol)
+            if pol != 'monocolumn':
+                judge(res, rc, eng, [[f, ['x', None]]], dlm, pol)
+                judge(res, rc, eng, [[['x', 'y'], f], [[None], f]], dlm, pol)
+                res.feat('nested_none_cases')
         # line separators x encodings
         for ls in ('\n', '\r\n', '\r'):
             for enc in (None, 'utf-8', 'latin-1'):
